@@ -67,8 +67,10 @@ Active     == Rg(in.active)
 Max2(a, b) == IF a > b THEN a ELSE b
 
 \* report of shard i as a function target -> entry (without the field t)
+\* src: whose status object the entry is - the shard's own answer ("shard"), a copy made by a transfer ("copy"),
+\* or the explorer's object ("explorer"): the published global status refers to objects, and transfers mutate them
 Entry(r)   == [state |-> r.state, health |-> r.health, times |-> r.times,
-               series |-> r.series, total |-> r.total]
+               series |-> r.series, total |-> r.total, src |-> "shard"]
 Rep(i)     == LET rs == Rg(in.shards[i].report)
               IN  [t \in {r.t : r \in rs} |-> Entry(CHOOSE r \in rs : r.t = t)]
 Expl       == LET es == Rg(in.explore)
@@ -117,7 +119,7 @@ Transfer(from, to, t) ==
   LET e == pl[from][t] IN
   /\ ld' = [ld EXCEPT ![to] = [head |-> @.head + e.series, proc |-> @.proc + e.total]]
   /\ pl' = [pl EXCEPT ![from] = [@ EXCEPT ![t].state = "in_transfer"],
-                      ![to]   = [x \in (DOMAIN @) \cup {t} |-> IF x = t THEN e ELSE @[x]]]
+                      ![to]   = [x \in (DOMAIN @) \cup {t} |-> IF x = t THEN [e EXCEPT !.src = "copy"] ELSE @[x]]]
 
 -----------------------------------------------------------------------------
 Init ==
@@ -282,7 +284,7 @@ Assign ==
                ELSE \E t \in cand :
                       LET x == Expl[t]
                           e == [state |-> x.state, health |-> x.health, times |-> x.times,
-                                series |-> x.series, total |-> x.total]
+                                series |-> x.series, total |-> x.total, src |-> "explorer"]
                           fit == {i \in Shards : Room(i, e)}
                       IN /\ vis' = vis \cup {t}
                          /\ IF fit = {}
@@ -400,10 +402,35 @@ Next == Fetch \/ Early \/ Gc \/ AllevP \/ AllevH \/ Assign \/ Scale \/ Down \/ C
 Spec == Init /\ [][Next]_vars
 
 -----------------------------------------------------------------------------
+(* The published global scrape status (globalScrapeStatus, updateScrapeStatusShards, merge): for every  *)
+(* discovered target the status OBJECT of the first shard (any shard that answered) whose entry has a     *)
+(* known health, else the explorer's object, else a fresh unknown one - read at the end of the cycle,     *)
+(* i.e. with the state a transfer may have written into it - and the in-sync shards planned to hold it.   *)
+FirstHolder(t) == LET S == {i \in Shards : t \in DOMAIN FetchPl(i) /\ FetchPl(i)[t].health # "unknown"}
+                  IN IF S = {} THEN 0 ELSE MinOf(S)
+GlobalOf(t) ==
+  LET i == FirstHolder(t) IN
+  IF i # 0
+    THEN LET r == FetchPl(i)[t]
+         IN [health |-> r.health, series |-> r.series, total |-> r.total, times |-> r.times,
+             state |-> IF t \in DOMAIN pl[i] /\ pl[i][t].src = "shard" THEN pl[i][t].state ELSE r.state]
+  ELSE IF t \in DOMAIN Expl
+    THEN LET hs == {k \in Shards : t \in DOMAIN pl[k] /\ pl[k][t].src = "explorer"}
+         IN [health |-> Expl[t].health, series |-> Expl[t].series, total |-> Expl[t].total, times |-> Expl[t].times,
+             state |-> IF hs = {} THEN Expl[t].state ELSE pl[MinOf(hs)][t].state]
+  ELSE [health |-> "unknown", series |-> 0, total |-> 0, times |-> 0, state |-> ""]
+\* nothing is published for a replica whose cycle was cut short (early or final scale request failed)
+Published == pc = "done" /\ Len(scales) > 0 /\ in.failScale # Len(scales)
+GlobalSeq ==
+  IF ~Published THEN <<>>
+  ELSE LET ord == SetToSortSeq(Active, <)
+       IN [k \in DOMAIN ord |-> [t |-> ord[k], shards |-> SetToSortSeq({i \in Changeable : ord[k] \in DOMAIN pl[i]}, <)] @@ GlobalOf(ord[k])]
+
 (* The outcome, in the shape the harness records it *)
 Out == [reqs   |-> reqs,
         posts  |-> [i \in Shards |-> [sent |-> posts[i].sent, ok |-> posts[i].ok,
                                       targets |-> SetToSeq(posts[i].targets)]],
         scales |-> scales,
+        global |-> GlobalSeq,
         panic  |-> FALSE]
 =============================================================================
